@@ -68,8 +68,13 @@ def rule_own_hook(repo):
     res.inst({'function': init.fq, 'registers_forward_hook': ok}, init.fq)
     if not ok:
         res.add(Finding('C15.HOOK', init, 'System.__init__ does not register self.forward_hook exactly once', construct='register hook'))
-    hook = repo.func(DYN, 'System.forward_hook')
-    pths, _ = paths.function_paths(hook.node, limit=256)
+    hook = repo.cls(DYN, 'System').methods.get('forward_hook')
+    if hook is None:
+        if ok:
+            raise AnalysisError('C15.HOOK: System.forward_hook is registered but not defined')
+        res.add(Finding('C15.HOOK', init, 'System has no forward hook any more: the clock advance is no longer attached to the call of the module but (at best) '
+                        'to forward(), which the documentation invites users to redefine - such a system is never advanced', construct='no forward hook'))
+    pths, _ = paths.function_paths(hook.node, limit=256) if hook is not None else ([], False)
     for ev, ex in pths:
         incs = []
         for e in ev:
@@ -81,7 +86,8 @@ def rule_own_hook(repo):
             res.add(Finding('C15.HOOK', hook, 'forward_hook advances the clock by %s on a path (must be exactly one add_(1))' % incs,
                             construct='hook increments'))
             break
-    res.inst({'function': hook.fq, 'paths': len(pths)}, hook.fq)
+    if hook is not None:
+        res.inst({'function': hook.fq, 'paths': len(pths)}, hook.fq)
     # reset / setter set the clock from their argument
     rs = repo.func(DYN, 'System.reset')
     ok = any(isinstance(c.func, ast.Attribute) and dotted(c.func.value) == 'self._t' and c.func.attr in ('fill_', 'copy_') and c.args and
